@@ -41,28 +41,55 @@ func c15(c *core.Ctx, r *core.Report) {
 
 	var totalPhi *ssa.Phi
 	rule(r, "C15.R1", "skip rule shape in ParseConfigFile", func() {
-		// the After test
-		var after *ssa.Call
-		for _, call := range an.AllCalls(pcf) {
-			if t := an.Callee(call); t != nil && t.Name() == "After" && an.IsNamed(t.Signature.Recv().Type(), "time", "Time") {
-				after, _ = call.(*ssa.Call)
-			}
-			if t := an.Callee(call); t != nil && t.Name() == "Before" && an.IsNamed(t.Signature.Recv().Type(), "time", "Time") {
-				r.Violation("ParseConfigFile#test", an.Pos(c, call), "the skip test uses Before: stages whose scheduled end is still in the future are dropped and finished ones kept")
-			}
+		// the After test (possibly inside a helper predicate)
+		isTimeMethod := func(t *ssa.Function, name string) bool {
+			return t != nil && t.Name() == name && t.Signature.Recv() != nil && an.IsNamed(t.Signature.Recv().Type(), "time", "Time")
 		}
-		if after == nil {
+		var afterEv *an.Event
+		for _, e := range an.FlatCalls(pcf, flatDepth, func(_ ssa.CallInstruction, t *ssa.Function) bool {
+			return isTimeMethod(t, "After") || isTimeMethod(t, "Before")
+		}) {
+			e := e
+			if isTimeMethod(an.Callee(e.Call()), "Before") {
+				r.Violation("ParseConfigFile#test", an.Pos(c, e.Instr), "the skip test uses Before: stages whose scheduled end is still in the future are dropped and finished ones kept")
+				continue
+			}
+			afterEv = &e
+		}
+		if afterEv == nil {
 			r.Violation("ParseConfigFile#test", c.Pos(pcf.Pos()), "no `scheduled end After now` test: stages are not filtered by stage-start (or filtered by something else)")
 			return
 		}
-		nowOK := an.D().Of(after.Call.Args[1]) == "$now"
+		after, _ := afterEv.Instr.(*ssa.Call)
+		// deref: the value (in ParseConfigFile's frame) behind loads and helper parameters
+		deref := func(v ssa.Value) ssa.Value {
+			for i := 0; i < 6; i++ {
+				v = afterEv.Translate(an.Strip(v))
+				u, ok := v.(*ssa.UnOp)
+				if !ok || u.Op != token.MUL {
+					break
+				}
+				if _, isParam := an.Strip(u.X).(*ssa.Parameter); !isParam {
+					break
+				}
+				v = u.X
+			}
+			return v
+		}
+		isStageStart := func(v ssa.Value) bool {
+			d := an.D().Of(deref(v))
+			return strings.HasSuffix(d, ".Schedule.StageStart") || strings.HasSuffix(d, ".Schedule.StageStart)")
+		}
+		nowV := deref(after.Call.Args[1])
+		nowP, nowIsParam := nowV.(*ssa.Parameter)
+		nowOK := nowIsParam && nowP.Parent() == pcf && an.IsNamed(nowP.Type(), "time", "Time")
 		add, isAdd := an.Strip(after.Call.Args[0]).(*ssa.Call)
-		okAdd := isAdd && an.Callee(add) != nil && an.Callee(add).Name() == "Add" && strings.HasSuffix(an.D().Of(add.Call.Args[0]), ".Schedule.StageStart")
+		okAdd := isAdd && isTimeMethod(an.Callee(add), "Add") && isStageStart(add.Call.Args[0])
 		r.Check(nowOK && okAdd, "ParseConfigFile#test", an.Pos(c, after), "test is stageStart.Add(cumulative).After(now)", "the skip test is "+an.D().Of(after)+", expected stageStart.Add(cumulative).After(now)")
 		if !okAdd {
 			return
 		}
-		cum, isBin := an.Strip(add.Call.Args[1]).(*ssa.BinOp)
+		cum, isBin := an.Strip(deref(add.Call.Args[1])).(*ssa.BinOp)
 		if !isBin || cum.Op != token.ADD {
 			r.Violation("ParseConfigFile#cumulative", an.Pos(c, add), "the offset added to stage-start is %s, not the cumulative duration including this stage: a stage is judged by where it starts, not where it ends", an.D().Of(add.Call.Args[1]))
 			return
@@ -109,38 +136,82 @@ func c15(c *core.Ctx, r *core.Report) {
 		// append target is the loop-carried slice: order preserved
 		sp, okS := app.Call.Args[0].(*ssa.Phi)
 		r.Check(okS && phiCycle(sp, app), "ParseConfigFile#order", an.Pos(c, app), "kept stages are appended to the plan in loop order", "kept stages are not appended at the end of the plan (order changed)")
-		// which conditions lead to the block that parses+appends
-		keep := app.Block()
-		for len(keep.Preds) == 1 {
-			if _, isIf := keep.Preds[0].Instrs[len(keep.Preds[0].Instrs)-1].(*ssa.If); isIf && len(keep.Preds[0].Succs) == 2 {
-				// keep walking up through the err check of parseStage
-				d := an.D().Of(keep.Preds[0].Instrs[len(keep.Preds[0].Instrs)-1].(*ssa.If).Cond)
-				if strings.Contains(d, "parseStage(") {
-					keep = keep.Preds[0]
-					continue
+		// which conditions lead from the increment (run on every iteration) to the append: enumerated as the
+		// paths of one iteration, helper predicates expanded, and compared with the truth table of
+		// stageStart == nil ∨ scheduledEnd.After(now)
+		paths, err := an.PathsBetween(cum.Block(), app.Block(), 256)
+		if err != nil {
+			r.Undecided("ParseConfigFile#keep-condition", an.Pos(c, app), "%v", err)
+			return
+		}
+		type kterm struct{ n, a int } // -1 unconstrained, 0 false, 1 true
+		var terms []kterm
+		var other []string
+		for _, p := range paths {
+			alts := [][]an.Lit{{}}
+			for _, l := range p.Lits {
+				var next [][]an.Lit
+				for _, alt := range an.ExpandLit(l, flatDepth, nil) {
+					for _, pre := range alts {
+						next = append(next, append(append([]an.Lit(nil), pre...), alt...))
+					}
+				}
+				alts = next
+			}
+			for _, alt := range alts {
+				t := kterm{-1, -1}
+				consistent := true
+				set := func(cur *int, v bool) {
+					iv := 0
+					if v {
+						iv = 1
+					}
+					if *cur != -1 && *cur != iv {
+						consistent = false
+					}
+					*cur = iv
+				}
+				for _, l := range alt {
+					cond := an.Strip(l.Cond)
+					if cond == ssa.Value(after) {
+						set(&t.a, l.Val)
+						continue
+					}
+					if bo, ok := cond.(*ssa.BinOp); ok && (bo.Op == token.EQL || bo.Op == token.NEQ) {
+						x, y := bo.X, bo.Y
+						if isNilConst(x) {
+							x, y = y, x
+						}
+						if isNilConst(y) {
+							xv := l.T(an.Strip(x))
+							xd := an.D().Of(xv)
+							if strings.HasSuffix(xd, ".Schedule.StageStart") {
+								set(&t.n, l.Val == (bo.Op == token.EQL))
+								continue
+							}
+							if strings.Contains(xd, "parseStage(") || strings.Contains(xd, "validateCommonFieldsOfStage(") {
+								continue // error checks of this iteration's own calls
+							}
+						}
+					}
+					other = append(other, sprintf("%s=%v", an.D().Of(l.Cond), l.Val))
+				}
+				if consistent {
+					terms = append(terms, t)
 				}
 			}
-			break
 		}
-		conds := map[string]bool{}
-		for _, p := range keep.Preds {
-			iff, ok := p.Instrs[len(p.Instrs)-1].(*ssa.If)
-			if !ok {
-				conds["unconditional"] = true
-				continue
+		keepWhen := func(n, a int) bool {
+			for _, t := range terms {
+				if (t.n == -1 || t.n == n) && (t.a == -1 || t.a == a) {
+					return true
+				}
 			}
-			taken := p.Succs[0] == keep
-			d := an.D().Of(iff.Cond)
-			switch {
-			case strings.HasSuffix(d, ".Schedule.StageStart == nil)") && taken:
-				conds["nil"] = true
-			case iff.Cond == ssa.Value(after) && taken:
-				conds["after"] = true
-			default:
-				conds[sprintf("%s=%v", d, taken)] = true
-			}
+			return false
 		}
-		r.Check(len(conds) == 2 && conds["nil"] && conds["after"], "ParseConfigFile#keep-condition", an.Pos(c, app), "a stage is kept iff stageStart == nil or its scheduled end is after now", sprintf("a stage is kept under %v, expected exactly {stageStart == nil, scheduledEnd.After(now)}", keys(conds)))
+		table := sprintf("nil,·→%v/%v  set,after→%v  set,over→%v", keepWhen(1, 0), keepWhen(1, 1), keepWhen(0, 1), keepWhen(0, 0))
+		okTable := keepWhen(1, 0) && keepWhen(1, 1) && keepWhen(0, 1) && !keepWhen(0, 0)
+		r.Check(okTable && len(other) == 0, "ParseConfigFile#keep-condition", an.Pos(c, app), "a stage is kept iff stageStart == nil or its scheduled end is after now", sprintf("a stage is kept under {%s} (other conditions: %v), expected exactly stageStart == nil ∨ scheduledEnd.After(now)", table, other))
 		// the appended element is this iteration's parsed stage
 		ed := an.D().Of(app.Call.Args[1])
 		if sl, ok := app.Call.Args[1].(*ssa.Slice); ok {
@@ -164,7 +235,13 @@ func c15(c *core.Ctx, r *core.Report) {
 			if core.RelPkg(fn) != fpkg {
 				continue
 			}
-			an.Instrs(fn, func(in ssa.Instruction) {
+			if fn.Parent() != nil {
+				continue
+			}
+			// through helpers (virtual inlining): a helper that receives the default as a parameter is seen with
+			// the caller's argument
+			an.Flatten(fn, flatDepth, nil, func(e an.Event) {
+				in := e.Instr
 				st, ok := in.(*ssa.Store)
 				if !ok {
 					return
@@ -176,12 +253,19 @@ func c15(c *core.Ctx, r *core.Report) {
 				if _, isPtr := dst.Type().Underlying().(*types.Pointer); !isPtr {
 					return
 				}
-				u, ok := st.Val.(*ssa.UnOp)
+				own, ownOK := st.Val.(*ssa.UnOp)
+				if e.Frame.Parent != nil && ownOK && ptrField(own) {
+					return // decided with the helper itself as root
+				}
+				u, ok := e.Translate(st.Val).(*ssa.UnOp)
 				if !ok || !ptrField(u) {
 					return
 				}
 				src := an.FieldOfAddr(u.X)
-				srcD, dstD := an.D().Of(u), an.D().Of(st.Addr)
+				srcD, dstD := an.D().Of(u), an.D().Of(e.Translate(an.Strip(st.Addr.(*ssa.FieldAddr).X)))+"."+dst.Name()
+				if e.Frame.Parent == nil {
+					dstD = an.D().Of(st.Addr)
+				}
 				n++
 				key := core.FuncName(fn) + "#" + dst.Name() + "←" + shortPath(srcD)
 				if perFn[fn.Name()] == nil {
